@@ -85,7 +85,7 @@ class VFnBh(VFn):
             if a[1] == VEC and self.scalar(s[1]):
                 return f"({a[0]}.map (fun v => min {self.num(s)} v))", VEC
         if isinstance(e.func, ast.Attribute) and e.func.attr == "clip" and not args and set(kws) == {"max"} \
-                and not f.startswith(("np.", "numpy.")):
+                and ast.unparse(e.func.value) not in ("np", "numpy"):
             a, s = self.expr(e.func.value, env), self.expr(kws["max"], env)
             if a[1] == VEC and self.scalar(s[1]):
                 return f"({a[0]}.map (fun v => min {self.num(s)} v))", VEC
@@ -97,7 +97,7 @@ class VFnBh(VFn):
             if x[1] == PERM:
                 return f"(NpBh.invPerm {x[0]})", PERM
         if isinstance(e.func, ast.Attribute) and e.func.attr == "argsort" and not args and not kws \
-                and not f.startswith(("np.", "numpy.")):
+                and ast.unparse(e.func.value) not in ("np", "numpy"):
             x = self.expr(e.func.value, env)
             if x[1] == PERM:
                 return f"(NpBh.invPerm {x[0]})", PERM
